@@ -262,7 +262,14 @@ func (g *c14Group) run(dir string) (line string) {
 					bt = t.Add(time.Millisecond)
 				}
 			}
-			b, err := c14Bundle(bsrc, c14Dest, btk, bt, g.seq0, payload)
+			// the number the application wrote into the bundle: the same for all members (seq0 = 0 or 7), or - in
+			// every third group - counting up (an application that numbers its bundles itself): the node assigns
+			// its own numbers in any case
+			preset := g.seq0
+			if g.idx%3 == 2 {
+				preset = g.seq0 + uint64(i)
+			}
+			b, err := c14Bundle(bsrc, c14Dest, btk, bt, preset, payload)
 			if err != nil {
 				return head + " error build"
 			}
